@@ -167,13 +167,13 @@ func init() {
 		ID:          "C14",
 		Explanation: "RP (sibling contradiction): the escape tables of the three string-literal decoders in the repository (parser lexer, fast scanner, linker.unescape) are extracted from their switch statements (letters per clause computed by evaluating the case conditions over all ASCII values; produced byte read from the single write of a simple clause) and must agree on the simple escapes and their bytes and on the multi-character introducers; each must equal the language specification's 11 simple escapes. RCF: no unreviewed case folding in the lexer/AST literal code.",
 		NotDecided:  "agreement with protoc on hex/octal/unicode digit handling, numeric literal values, overflow behaviour",
-		Rules:       []func(*World){rpC14, rcfCaseFolding},
+		Rules:       []func(*World){rpC14, rp2EscapeBounds, rp3C14, rcfCaseFolding},
 	})
 	register(&Property{
 		ID:          "C25",
 		Explanation: "RP restricted to the parser's and the fast scanner's string decoders (same tables), plus modifier agreement: the import modifiers fastscan.Scan recognises equal the keyword alternatives of importDecl in parser/proto.y.",
 		NotDecided:  "statement boundary detection over arbitrary token streams; package name assembly",
-		Rules:       []func(*World){rpC25},
+		Rules:       []func(*World){rpC25, rp3C25},
 	})
 	register(&Property{
 		ID:          "C26",
@@ -185,6 +185,6 @@ func init() {
 		ID:          "C11",
 		Explanation: "RR: productions are read from parser/proto.y and the compiled actions from the `switch protont` of parser/proto.y.go; symbol counts are cross-checked between both files; for every production without the `error` token the compiled action references all of its right-hand-side values protoDollar[1..K]. RR2: every exported ast.New*Node constructor of a composite node places each Node-typed parameter (or each element of a slice parameter) among the node's children. Together: every token the lexer hands to the parser is reachable by ast.Walk.",
 		NotDecided:  "that the lexer's items tile the input (whitespace/comment spans are arithmetic), BOM handling, correctness of leading-whitespace offsets, order of children",
-		Rules:       []func(*World){rrGrammar, rr2Constructors},
+		Rules:       []func(*World){rrGrammar, rr2Constructors, rr3SameBuffer},
 	})
 }
